@@ -208,7 +208,7 @@ def g_perm(draw):
         X, _ = full_rank_data(draw, n, F)
         y = np.concatenate([np.arange(K), np.arange(K), r.integers(0, K, n - 2 * K)])
         c.update(X=X, y=y[np.array(gen.permutation(draw, n))], perm=gen.permutation(draw, n),
-                 relabel=gen.permutation(draw, K))
+                 relabel=gen.permutation(draw, K), dask=gen.boolean(draw), chunks=gen.composition(draw, n, max_parts=4))
     else:
         f = gen.fa_case(draw, jfa=(kind in ("jfa", "jfa_bag") or (kind == "fa_array" and gen.boolean(draw))),
                         max_sessions=1, maxC=2, maxF=2)
@@ -255,7 +255,13 @@ def fit_perm(c, order, relabel):
     if relabel is not None:
         y = np.asarray(relabel)[y]
     if kind == "wccn":
-        return {"weights": np.asarray(WCCN().fit(c["X"][order], y).weights, float)}
+        Xo = c["X"][order]
+        if c.get("dask"):
+            import dask
+
+            w = WCCN().fit(sut.dask_rows(Xo, c["chunks"]), y).weights
+            return {"weights": np.asarray(dask.compute(w)[0], float)}
+        return {"weights": np.asarray(WCCN().fit(Xo, y).weights, float)}
     m = sut.make_fa(c, em_iterations=int(c["em"]))
     if kind == "fa_array":
         Xo = c["X"][order]
